@@ -16,6 +16,19 @@ git -C /repo worktree add -q "$wt" HEAD || exit 2
 cleanup() { git -C /repo worktree remove --force "$wt" >/dev/null 2>&1; rm -rf "$out"; }
 trap cleanup EXIT
 export GOFLAGS=-mod=readonly GOPROXY=off GOSUMDB=off GOTOOLCHAIN=local
+if [ -n "${SKIP_CONFIRM:-}" ]; then
+  # the change was confirmed when it was archived: only build it and run the checks
+  (cd "$wt" && git apply "$seed/patch.diff") || { echo "patch does not apply"; exit 2; }
+  (cd "$wt" && go build ./...) || { echo "does not build"; exit 2; }
+  echo "RESULT demo_without_exit=- suite_exit=- demo_with_exit=-"
+  for p in "$@"; do
+    (cd "$here" && VERIF_REPO="$wt" VERIF_EVIDENCE_DIR="$out/ev" VERIF_REPLAY_DIR="$out/replays" ./bin/vcheck run "$p" --tier "${TIER:-quick}" --workers "${WORKERS:-8}") >"$out/check_$p.log" 2>&1; rc=$?
+    grep -c "^VIOLATION" "$out/check_$p.log" | sed "s/^/   violations reported: /"
+    grep "^VIOLATION" "$out/check_$p.log" | cut -c1-400 | head -4
+    echo "CHECK $p exit=$rc"
+  done
+  exit 0
+fi
 place=$(head -1 "$seed/demo_test.go" | sed -n 's,^// place at: *,,p')
 [ -n "$place" ] || { echo "demo_test.go has no '// place at:' line"; exit 2; }
 cp "$seed/demo_test.go" "$wt/$place"
